@@ -2190,6 +2190,10 @@ class TypeVarValue(Value):
             return {}
         if isinstance(other, TypeVarValue):
             bounds = [*self.get_inherent_bounds(), *other.get_inherent_bounds()]
+        elif _is_unreachable(other):
+            # The element type of an empty collection (e.g., an unused *args)
+            # says nothing about the type variable.
+            bounds = [*self.get_inherent_bounds()]
         else:
             bounds = [LowerBound(self.typevar, other), *self.get_inherent_bounds()]
         return self.make_bounds_map(bounds, other, ctx)
